@@ -135,6 +135,11 @@ def ev(t, env):
             return env["get"](env["state"])
         if nm == "polarity":
             return env["pol"]
+        if nm == "then_some" and len(a) == 2:
+            c_ = ev(a[0], env)
+            return ("Some", ev(a[1], env)) if c_ else ("None",)
+        if nm == "then" and len(a) == 2:
+            raise Und("then(closure)")
         if nm in ("is_some", "is_none") and a:
             v = ev(a[0], env)
             if not isinstance(v, tuple):
